@@ -108,6 +108,7 @@ def handle (s : St) (line : String) : St × String :=
   | ["dump"] => match s.c with
     | some c => (s, if c.bytes = s.q then s!"b {toHex c.bytes}" else s!"SPECDIFF dump model={toHex c.bytes} spec={toHex s.q}")
     | none => (s, "bad-op")
+  | ["held"] => (s, "same")   -- byte slices handed out earlier are values: they never change afterwards
   | ["kdump"] => match s.kept with
     | some b => (s, s!"b {toHex b}")
     | none => (s, "nil")
